@@ -1,0 +1,9 @@
+//go:build !verif
+
+// Package verifhook holds the instrumentation points used by the verification harnesses.
+// Without the `verif` build tag every hook is an empty function.
+package verifhook
+
+func Spawn(run func()) bool { return false }
+
+func Yield(point string) {}
